@@ -143,6 +143,15 @@ Contract(
 )
 
 Contract(
+    "workload.strategy.ExecutionStrategies.get_slowest_strategy#body",
+    params={"self": T.Ref(STRATS)},
+    ret=S_.nullable(STRAT),
+    ensures=_extreme_strategy_ens("slowest"),
+    note="verified against the body: max(self._strategies, key=runtime) -- membership and maximality (which of several equally slow members is not modelled); callers use the plain contract (a pure function of the strategy list)",
+    props=("C05", "C03", "C13"),
+)
+
+Contract(
     "workload.placement.Placement.__init__",
     params={
         "self": T.Ref(PLACEMENT),
